@@ -728,4 +728,326 @@ theorem runAudited_dropEnv {ε ι κ : Type} (E : Runner ε ι κ) (K k : Nat) (
         refine ⟨?_, this.2⟩
         rw [this.1]; simp
 
+open BarterModel.Audit in
+theorem auditRunner_agrees (s : EngA) (feed : List (Engine.Event × Ask)) :
+    runTicks auditRunner s feed = (runWithAudit s feed).2 ∧
+    (runPlain auditRunner s feed).1 = (runWithAudit s feed).1 := by
+  induction feed generalizing s with
+  | nil => simp [runTicks, runPlain, runWithAudit, auditRunner]
+  | cons ia rest ih =>
+    rcases ia with ⟨ev, ask⟩
+    have hp : auditRunner.proc s (ev, ask) = processWithAudit s ev ask := rfl
+    have ht : auditRunner.terminal = Tick.terminal := rfl
+    by_cases h : (processWithAudit s ev ask).2.terminal = true
+    · simp [runTicks, runPlain, runWithAudit, hp, ht, h]
+    · simp [runTicks, runPlain, runWithAudit, hp, ht, h, ih]
+
+/-! ### fairness and promptness of the merged stream -/
+
+theorem flatPoll_item_left {β : Type} (cL cR : Chan β) (x : β) (q : List β) (h : cL.queue = x :: q) :
+    flatPoll cL cR true = (MSt.live { cL with queue := q } cR false, .item x) := by
+  simp [flatPoll, h]
+
+theorem flatPoll_item_right {β : Type} (cL cR : Chan β) (y : β) (q : List β) (h : cR.queue = y :: q) :
+    flatPoll cL cR false = (MSt.live cL { cR with queue := q } true, .item y) := by
+  simp [flatPoll, h]
+
+theorem flatPoll_marker_left {β : Type} (cL cR : Chan β) (hq : cL.queue = []) (hs : cL.senders = 0) :
+    flatPoll cL cR true = (none, .done) := by
+  simp [flatPoll, hq, hs]
+
+theorem flatPoll_marker_right {β : Type} (cL cR : Chan β) (hq : cR.queue = []) (hs : cR.senders = 0) :
+    flatPoll cL cR false = (none, .done) := by
+  simp [flatPoll, hq, hs]
+
+/-- the left input is closed and used up, the right one is polled first and has nothing: the end -/
+theorem flatPoll_marker_left' {β : Type} (cL cR : Chan β) (hq : cL.queue = []) (hs : cL.senders = 0)
+    (hr : cR.queue = []) : flatPoll cL cR false = (none, .done) := by
+  by_cases h : cR.senders = 0 <;> simp [flatPoll, hq, hs, hr, h]
+
+theorem flatPoll_marker_right' {β : Type} (cL cR : Chan β) (hq : cR.queue = []) (hs : cR.senders = 0)
+    (hl : cL.queue = []) : flatPoll cL cR true = (none, .done) := by
+  by_cases h : cL.senders = 0 <;> simp [flatPoll, hq, hs, hl, h]
+
+theorem queue_ne_nil_of {α : Type} {b : Bool} {out q : List (Bool × α)} {acc : List α}
+    (h : out.filter (·.1 == b) ++ q = acc.map (fun x => (b, x))) (hne : outOf b out ≠ acc) : q ≠ [] := by
+  intro hq
+  subst hq
+  apply hne
+  rw [outOf_eq]
+  simp only [List.append_nil] at h
+  rw [h, map_tag_snd]
+
+/-- Fairness: while both inputs have something the merged stream has not handed over yet, two
+consecutive polls hand over one item of each input. -/
+theorem mrun_fair {α : Type} {r : MRun α} (h : MShape r) (hne : r.ended = false)
+    (hl : outOf true r.out ≠ r.accL) (hr : outOf false r.out ≠ r.accR) :
+    ∃ a b, ((r.step .poll).step .poll).out = r.out ++ [a, b] ∧ a.1 ≠ b.1 ∧
+      ((r.step .poll).step .poll).ended = false := by
+  cases h with
+  | ended hst hend _ _ _ => simp [hend] at hne
+  | live cL cR af hst hend hL hR hrl hrr hsl hsr =>
+    have hql := queue_ne_nil_of hL hl
+    have hqr := queue_ne_nil_of hR hr
+    obtain ⟨x, ql, hxl⟩ := List.exists_cons_of_ne_nil hql
+    obtain ⟨y, qr, hyr⟩ := List.exists_cons_of_ne_nil hqr
+    have hx : x.1 = true := by rw [hxl] at hL; exact head_tag hL
+    have hy : y.1 = false := by rw [hyr] at hR; exact head_tag hR
+    cases af with
+    | true =>
+      refine ⟨x, y, ?_, by simp [hx, hy], ?_⟩ <;>
+      · rw [step_poll_live r cL cR true hst, flatPoll_item_left cL cR x ql hxl]
+        simp only
+        rw [step_poll_live _ { cL with queue := ql } cR false rfl, flatPoll_item_right _ cR y qr hyr]
+        simp [hend]
+    | false =>
+      refine ⟨y, x, ?_, by simp [hx, hy], ?_⟩ <;>
+      · rw [step_poll_live r cL cR false hst, flatPoll_item_right cL cR y qr hyr]
+        simp only
+        rw [step_poll_live _ cL { cR with queue := qr } true rfl, flatPoll_item_left cL _ x ql hxl]
+        simp [hend]
+
+/-- Promptness: once an input is closed and everything it sent has been handed over, the merged
+stream ends within two polls, handing over at most one more item (of the other input). -/
+theorem mrun_prompt {α : Type} {r : MRun α} (h : MShape r) (left : Bool) (hne : r.ended = false)
+    (hc : r.closed left = true) (hall : outOf left r.out = r.acc left) :
+    ((r.step .poll).step .poll).ended = true ∧
+    (((r.step .poll).step .poll).out = r.out ∨
+      ∃ y, y.1 = !left ∧ ((r.step .poll).step .poll).out = r.out ++ [y]) := by
+  cases h with
+  | ended hst hend _ _ _ => simp [hend] at hne
+  | live cL cR af hst hend hL hR hrl hrr hsl hsr =>
+    cases left with
+    | true =>
+      simp only [MRun.closed, MRun.acc, ↓reduceIte] at hc hall
+      have hq : cL.queue = [] := by
+        have h1 := congrArg (List.map (·.2)) hL
+        simp only [List.map_append, ← outOf_eq, hall, snd_comp_tagL, List.map_map, List.map_id] at h1
+        simpa using h1
+      have hs : cL.senders = 0 := by simp [hsl, hc]
+      cases af with
+      | true =>
+        rw [step_poll_live r cL cR true hst, flatPoll_marker_left cL cR hq hs]
+        simp [step_poll_ended]
+      | false =>
+        cases hqr : cR.queue with
+        | nil =>
+          rw [step_poll_live r cL cR false hst, flatPoll_marker_left' cL cR hq hs hqr]
+          simp [step_poll_ended]
+        | cons y qr =>
+          have hy : y.1 = false := by rw [hqr] at hR; exact head_tag hR
+          rw [step_poll_live r cL cR false hst, flatPoll_item_right cL cR y qr hqr]
+          simp only
+          rw [step_poll_live _ cL { cR with queue := qr } true rfl, flatPoll_marker_left cL _ hq hs]
+          exact ⟨rfl, Or.inr ⟨y, by simp [hy], rfl⟩⟩
+    | false =>
+      simp only [MRun.closed, MRun.acc, Bool.false_eq_true, ↓reduceIte] at hc hall
+      have hq : cR.queue = [] := by
+        have h1 := congrArg (List.map (·.2)) hR
+        simp only [List.map_append, ← outOf_eq, hall, snd_comp_tagR, List.map_map, List.map_id] at h1
+        simpa using h1
+      have hs : cR.senders = 0 := by simp [hsr, hc]
+      cases af with
+      | false =>
+        rw [step_poll_live r cL cR false hst, flatPoll_marker_right cL cR hq hs]
+        simp [step_poll_ended]
+      | true =>
+        cases hql : cL.queue with
+        | nil =>
+          rw [step_poll_live r cL cR true hst, flatPoll_marker_right' cL cR hq hs hql]
+          simp [step_poll_ended]
+        | cons x ql =>
+          have hx : x.1 = true := by rw [hql] at hL; exact head_tag hL
+          rw [step_poll_live r cL cR true hst, flatPoll_item_left cL cR x ql hql]
+          simp only
+          rw [step_poll_live _ { cL with queue := ql } cR false rfl, flatPoll_marker_right _ cR hq hs]
+          exact ⟨rfl, Or.inr ⟨x, by simp [hx], rfl⟩⟩
+
+/-- A poll stays pending exactly when there is nothing to hand over and nobody has closed. -/
+theorem mrun_pending_iff {α : Type} {r : MRun α} (h : MShape r) :
+    (r.step .poll).last = some .pending ↔
+      r.ended = false ∧ outOf true r.out = r.accL ∧ outOf false r.out = r.accR ∧
+        r.closedL = false ∧ r.closedR = false := by
+  cases h with
+  | ended hst hend _ _ _ => simp [step_poll_ended r hst, hend]
+  | live cL cR af hst hend hL hR hrl hrr hsl hsr =>
+    have eL : outOf true r.out ++ cL.queue.map (·.2) = r.accL := by
+      have := congrArg (List.map (·.2)) hL
+      simpa [snd_comp_tagL, outOf_eq] using this
+    have eR : outOf false r.out ++ cR.queue.map (·.2) = r.accR := by
+      have := congrArg (List.map (·.2)) hR
+      simpa [snd_comp_tagR, outOf_eq] using this
+    have hcl : cL.senders = 0 ↔ r.closedL = true := by rw [hsl]; cases r.closedL <;> simp
+    have hcr : cR.senders = 0 ↔ r.closedR = true := by rw [hsr]; cases r.closedR <;> simp
+    rw [step_poll_live r cL cR af hst]
+    rcases flatPoll_cases cL cR af with ⟨x, q, hq, hp⟩ | ⟨y, q, hq, hp⟩ | ⟨hq, hs, hp⟩ | ⟨hq, hs, hp⟩ |
+      ⟨hq1, hq2, hs1, hs2, hp⟩
+    · rw [hp]; simp only [hend]
+      constructor
+      · intro h; cases h
+      · rintro ⟨_, h1, _⟩; rw [hq] at eL; rw [h1] at eL; simp at eL
+    · rw [hp]; simp only [hend]
+      constructor
+      · intro h; cases h
+      · rintro ⟨_, _, h1, _⟩; rw [hq] at eR; rw [h1] at eR; simp at eR
+    · rw [hp]; simp only [hend]
+      constructor
+      · intro h; cases h
+      · rintro ⟨_, _, _, h1, _⟩; have := hcl.mp hs; simp [h1] at this
+    · rw [hp]; simp only [hend]
+      constructor
+      · intro h; cases h
+      · rintro ⟨_, _, _, _, h1⟩; have := hcr.mp hs; simp [h1] at this
+    · rw [hp]; simp only [hend, true_and]
+      refine ⟨fun _ => ⟨?_, ?_, ?_, ?_⟩, fun _ => trivial⟩
+      · rw [hq1] at eL; simpa using eL
+      · rw [hq2] at eR; simpa using eR
+      · cases hc : r.closedL <;> simp_all
+      · cases hc : r.closedR <;> simp_all
+
+/-! ### audited run = operation history -/
+
+/-- the consumer only reads or drops its receiver -/
+def ConsumerOnly {κ : Type} (ops : List (Op κ)) : Prop := ∀ op ∈ ops, op = .recv ∨ op = .dropRx
+
+def sync {κ : Type} (d : DState) (s : Sys κ) : Sys κ := { s with d := d }
+
+theorem sync_step_consumer {κ : Type} (d : DState) (s : Sys κ) (op : Op κ) (h : op = .recv ∨ op = .dropRx) :
+    sync d (s.step op) = (sync d s).step op := by
+  rcases h with rfl | rfl
+  · rcases s with ⟨d0, c, g, se⟩
+    simp only [Sys.step, sync]
+    by_cases hrx : c.rxAlive = true
+    · simp only [hrx, ↓reduceIte]
+      split <;> simp_all
+    · simp [hrx]
+  · rfl
+
+theorem sync_run_consumer {κ : Type} (d : DState) (ops : List (Op κ)) (s : Sys κ) (h : ConsumerOnly ops) :
+    sync d (s.run ops) = (sync d s).run ops := by
+  induction ops generalizing s with
+  | nil => rfl
+  | cons op ops ih =>
+    simp only [Sys.run, List.foldl_cons] at *
+    rw [ih (s.step op) (fun o ho => h o (by simp [ho])), sync_step_consumer d s op (h op (by simp))]
+
+theorem sync_dsend {κ : Type} (d : DState) (s : Sys κ) (x : κ) :
+    sync (dsend sysTx d s x).1 (dsend sysTx d s x).2 = (sync d s).step (.dsend x) := by
+  rcases s with ⟨d0, ⟨q, n, rx⟩, g, se⟩
+  cases d <;> cases rx <;> simp [dsend, sysTx, sync, Sys.step, chanTx, Chan.send, Chan.dropTx]
+
+theorem offeredOf_append {κ : Type} (a b : List (Op κ)) : offeredOf (a ++ b) = offeredOf a ++ offeredOf b := by
+  induction a with
+  | nil => rfl
+  | cons op a ih => cases op <;> simp [offeredOf, ih]
+
+theorem offeredOf_consumer {κ : Type} (ops : List (Op κ)) (h : ConsumerOnly ops) : offeredOf ops = [] := by
+  induction ops with
+  | nil => rfl
+  | cons op ops ih =>
+    have := h op (by simp)
+    rcases this with rfl | rfl <;> simpa [offeredOf] using ih (fun o ho => h o (by simp [ho]))
+
+theorem offeredOf_schedule {κ : Type} (cons : Nat → List (Op κ)) (h : ∀ k, ConsumerOnly (cons k)) (k : Nat)
+    (ts : List κ) : offeredOf (schedule cons k ts) = ts := by
+  induction ts generalizing k with
+  | nil => rfl
+  | cons t ts ih => simp [schedule, offeredOf_append, offeredOf_consumer _ (h k), offeredOf, ih]
+
+/-- An audited run over a channel is the operation history `schedule cons k ticks` of the
+transmitter + receiver system. -/
+theorem runAudited_eq_sys {ε ι κ : Type} (E : Runner ε ι κ) (cons : Nat → List (Op κ))
+    (hc : ∀ k, ConsumerOnly (cons k)) (k : Nat) (e : ε) (d : DState) (s : Sys κ) (feed : List ι) :
+    let a := runAudited E sysTx (consumerEnv cons) k e d s feed
+    sync a.tx a.world = (sync d s).run (schedule cons k (runTicks E e feed)) := by
+  induction feed generalizing k e d s with
+  | nil =>
+    simp only [runAudited, runTicks, schedule, consumerEnv, List.append_nil]
+    rw [sync_dsend, Sys.run_append, sync_run_consumer d _ s (hc k)]
+    rfl
+  | cons ev rest ih =>
+    simp only [runAudited, runTicks, consumerEnv]
+    split
+    · simp only [schedule, List.append_nil]
+      rw [sync_dsend, Sys.run_append, sync_run_consumer d _ s (hc k)]
+      rfl
+    · simp only [schedule]
+      have := ih (k + 1) (E.proc e ev).1 (dsend sysTx d (s.run (cons k)) (E.proc e ev).2).1
+        (dsend sysTx d (s.run (cons k)) (E.proc e ev).2).2
+      rw [this, sync_dsend, Sys.run_append, Sys.run_append, sync_run_consumer d _ s (hc k)]
+      rfl
+
+/-- no operation of the history cuts the transmitter off -/
+def NoCut {κ : Type} (ops : List (Op κ)) : Prop := ∀ op ∈ ops, op ≠ .disable ∧ op ≠ .dropRx
+
+theorem acceptedOf_noCut {κ : Type} (ops : List (Op κ)) (h : NoCut ops) : acceptedOf ops = offeredOf ops := by
+  induction ops with
+  | nil => rfl
+  | cons op ops ih =>
+    have h' : NoCut ops := fun o ho => h o (by simp [ho])
+    have := h op (by simp)
+    cases op with
+    | dsend x => simp [acceptedOf, offeredOf, ih h']
+    | recv => simp [acceptedOf, offeredOf, ih h']
+    | disable => simp at this
+    | dropRx => simp at this
+
+theorem step_noCut {κ : Type} (s : Sys κ) (op : Op κ) (h : op ≠ .disable ∧ op ≠ .dropRx)
+    (hd : s.d = .active) (hrx : s.c.rxAlive = true) :
+    (s.step op).d = .active ∧ (s.step op).c.rxAlive = true := by
+  rcases s with ⟨d, ⟨q, n, rx⟩, g, se⟩
+  simp only at hd hrx
+  subst hd hrx
+  cases op with
+  | dsend x => simp [Sys.step, dsend, chanTx, Chan.send]
+  | recv =>
+    cases q with
+    | nil => by_cases hn : n = 0 <;> simp [Sys.step, Chan.pollNext, hn]
+    | cons x q => simp [Sys.step, Chan.pollNext]
+  | disable => simp at h
+  | dropRx => simp at h
+
+theorem run_noCut {κ : Type} (ops : List (Op κ)) (s : Sys κ) (h : NoCut ops)
+    (hd : s.d = .active) (hrx : s.c.rxAlive = true) :
+    (s.run ops).d = .active ∧ (s.run ops).c.rxAlive = true := by
+  induction ops generalizing s with
+  | nil => exact ⟨hd, hrx⟩
+  | cons op ops ih =>
+    have hs := step_noCut s op (h op (by simp)) hd hrx
+    exact ih (s.step op) (fun o ho => h o (by simp [ho])) hs.1 hs.2
+
+theorem noCut_schedule {κ : Type} (cons : Nat → List (Op κ)) (h : ∀ k, ∀ op ∈ cons k, op = .recv) (k : Nat)
+    (ts : List κ) : NoCut (schedule cons k ts) := by
+  induction ts generalizing k with
+  | nil => intro op ho; simp [schedule] at ho
+  | cons t ts ih =>
+    intro op ho
+    simp only [schedule, List.mem_append, List.mem_singleton] at ho
+    rcases ho with (ho | rfl) | ho
+    · rw [h k op ho]; simp
+    · simp
+    · exact ih (k + 1) op ho
+
+/-- Facts about every history from the initial state with an enabled transmitter. -/
+theorem sys_facts {κ : Type} (ops : List (Op κ)) :
+    let s := (Sys.init .active : Sys κ).run ops
+    s.got <+: acceptedOf ops ∧
+    (s.c.rxAlive = true → s.got ++ s.c.queue = acceptedOf ops) ∧
+    (s.c.rxAlive = false → s.c.queue = []) ∧
+    (s.d = .active → acceptedOf ops = offeredOf ops) := by
+  have hrel : SysRel ((Sys.init .active : Sys κ).run ops) ((SpecSys.init true).run ops) :=
+    sysRel_run ops (sysRel_init (α := κ) .active)
+  have hlive := spec_run_live ops (SpecSys.init (α := κ) true) rfl rfl
+  have hlog : ((SpecSys.init true : SpecSys κ).run ops).ch.log = acceptedOf ops := by
+    have := hlive.1
+    rwa [show (SpecSys.init (α := κ) true).ch.log = [] from rfl, List.nil_append] at this
+  obtain ⟨h1, h2, h3, h4, h5, h6, h6', h7, h8⟩ := hrel
+  refine ⟨?_, ?_, h8, ?_⟩
+  · rw [← h5, SpecChan.got, hlog]; exact List.take_prefix _ _
+  · intro hrx
+    rw [← h7 hrx]; exact hlog
+  · intro hd
+    apply hlive.2
+    rw [h1, hd]; rfl
+
 end BarterModel.Chan
